@@ -79,12 +79,17 @@ int main(void) { setvbuf(stdout, 0, _IOLBF, 0); VP_ENTRY(); printf("VP-COMPLETED
 /* The library's assertion hook.  FRG_ASSERT lowers to: if(frg_panic) frg_panic(msg); trap.
  * VP_PANIC_VIOLATION: a panic on an input that satisfies the documented preconditions is a violation.
  * VP_PANIC_STOP     : a panic is an admissible, defined way to stop (C20). */
+#ifdef VP_FLAT      /* harness of an `ir2c --flat` unit: pointers are 64-bit addresses */
+typedef uint64_t vp_msg_t;
+#else
+typedef uint8_t *vp_msg_t;
+#endif
 #if defined(VP_PANIC_VIOLATION)
-void frg_panic(uint8_t *m) { (void)m; VP_ASSERT(0, "library assertion (FRG_ASSERT) fired on an input inside the property's preconditions"); }
+void frg_panic(vp_msg_t m) { (void)m; VP_ASSERT(0, "library assertion (FRG_ASSERT) fired on an input inside the property's preconditions"); }
 void ir2c_trap_hook(void) { VP_ASSERT(0, "trap reached"); }
 #elif defined(VP_PANIC_STOP)
 int vp_stopped;
-void frg_panic(uint8_t *m) { (void)m; vp_stopped = 1; VP_STOP(); }
+void frg_panic(vp_msg_t m) { (void)m; vp_stopped = 1; VP_STOP(); }
 void ir2c_trap_hook(void) { vp_stopped = 1; VP_STOP(); }
 #endif
 
